@@ -34,7 +34,6 @@ func elemCorpus(tier string) []ElemInst {
 		add(B("uint8"), true, true)
 		add(Named("NStr", B("string")), true, true)
 		add(Array(2, B("int")), true, false)
-		add(Map(B("string"), B("int")), false, false)
 		add(Ptr(B("int")), false, false)
 		add(Slice(Ptr(leaf)), false, false)
 	}
